@@ -1,448 +1,740 @@
-(* Proofs about the group-coordinator model (model/Coordinator.v). *)
+(* Proofs about the group-coordinator model (model/Coordinator.v): invariants of every
+   operation, and the lemmas behind props/C12, C13, C14, C15, C43. *)
 From Coq Require Import Permutation ZifyBool.
-From KS Require Import lib.Base model.Coordinator.
+From KS Require Import lib.Base model.Coordinator proofs.CoordinatorBase.
 Open Scope Z_scope.
 
-(* ================= association lists, sorting ================= *)
-Section AssocLemmas.
-  Context {V : Type}.
-  Implicit Types l : list (Z * V).
-
-  Lemma alookup_aset_same k v l : alookup k (aset k v l) = Some v.
-  Proof.
-    induction l as [|[k' v'] l IH]; cbn.
-    - now rewrite Z.eqb_refl.
-    - destruct (k =? k') eqn:E; cbn; rewrite ?Z.eqb_refl; [reflexivity|]. now rewrite E.
-  Qed.
-
-  Lemma alookup_aset_other k k' v l : k' <> k -> alookup k' (aset k v l) = alookup k' l.
-  Proof.
-    intros Hn. induction l as [|[k2 v2] l IH]; cbn.
-    - destruct (k' =? k) eqn:E; [lia|reflexivity].
-    - destruct (k =? k2) eqn:E; cbn.
-      + assert (k = k2) by lia. subst. destruct (k' =? k2) eqn:E2; [lia|reflexivity].
-      + destruct (k' =? k2); [reflexivity|exact IH].
-  Qed.
-
-  Lemma alookup_In k v l : alookup k l = Some v -> In (k, v) l.
-  Proof.
-    induction l as [|[k' v'] l IH]; cbn; [discriminate|].
-    destruct (k =? k') eqn:E; intros H.
-    - inversion H; subst. left. f_equal. lia.
-    - right. auto.
-  Qed.
-
-  Lemma alookup_None k l : alookup k l = None <-> ~ In k (akeys l).
-  Proof.
-    induction l as [|[k' v'] l IH]; cbn; [tauto|].
-    destruct (k =? k') eqn:E; split; intros H.
-    - discriminate.
-    - exfalso. apply H. left. lia.
-    - intros [H1|H1]; [lia|]. now apply IH in H.
-    - apply IH. tauto.
-  Qed.
-
-  Lemma amem_In k l : amem k l = true <-> In k (akeys l).
-  Proof.
-    unfold amem. destruct (alookup k l) eqn:E; split; intros H; try reflexivity; try discriminate.
-    - apply alookup_In in E. unfold akeys. apply in_map_iff. now exists (k, v).
-    - exfalso. apply alookup_None in E. contradiction.
-  Qed.
-
-  Lemma amem_false k l : amem k l = false <-> ~ In k (akeys l).
-  Proof.
-    rewrite <- amem_In. destruct (amem k l); split; intros H; try congruence; try discriminate; auto.
-  Qed.
-
-  Lemma In_alookup k v l : NoDup (akeys l) -> In (k, v) l -> alookup k l = Some v.
-  Proof.
-    induction l as [|[k' v'] l IH]; cbn; [tauto|]. intros Hd [H|H].
-    - inversion H; subst. now rewrite Z.eqb_refl.
-    - inversion Hd; subst. destruct (k =? k') eqn:E.
-      + exfalso. assert (k = k') by lia. subst. apply H2. unfold akeys. apply in_map_iff. now exists (k', v).
-      + auto.
-  Qed.
-
-  Lemma akeys_aset_in k v l k' : In k' (akeys (aset k v l)) <-> k' = k \/ In k' (akeys l).
-  Proof.
-    induction l as [|[k2 v2] l IH]; cbn.
-    - intuition.
-    - destruct (k =? k2) eqn:E; cbn.
-      + assert (k = k2) by lia. subst. intuition.
-      + rewrite IH. intuition.
-  Qed.
-
-  Lemma akeys_aset_present k v l : In k (akeys l) -> akeys (aset k v l) = akeys l.
-  Proof.
-    induction l as [|[k2 v2] l IH]; cbn; [tauto|]. intros H.
-    destruct (k =? k2) eqn:E; cbn.
-    - f_equal. lia.
-    - f_equal. apply IH. destruct H; [lia|assumption].
-  Qed.
-
-  Lemma akeys_aset_absent k v l : ~ In k (akeys l) -> akeys (aset k v l) = akeys l ++ [k].
-  Proof.
-    induction l as [|[k2 v2] l IH]; cbn; [reflexivity|]. intros H.
-    destruct (k =? k2) eqn:E; cbn.
-    - exfalso. apply H. left. lia.
-    - f_equal. apply IH. tauto.
-  Qed.
-
-  Lemma NoDup_akeys_aset k v l : NoDup (akeys l) -> NoDup (akeys (aset k v l)).
-  Proof.
-    intros Hd. destruct (in_dec Z.eq_dec k (akeys l)) as [Hi|Hn].
-    - now rewrite akeys_aset_present.
-    - rewrite akeys_aset_absent by assumption. now apply NoDup_snoc.
-  Qed.
-
-  Lemma aset_nonempty k v l : aset k v l <> [].
-  Proof. destruct l as [|[k' v'] l]; cbn; [discriminate|]. destruct (k =? k'); discriminate. Qed.
-
-  Lemma In_aset k v l e : In e (aset k v l) -> e = (k, v) \/ In e l.
-  Proof.
-    induction l as [|[k2 v2] l IH]; cbn.
-    - intuition.
-    - destruct (k =? k2); cbn; intuition.
-  Qed.
-
-  Lemma akeys_filter_in (f : Z * V -> bool) l k : In k (akeys (filter f l)) -> In k (akeys l).
-  Proof.
-    unfold akeys. rewrite !in_map_iff. intros [e [H1 H2]]. apply filter_In in H2. exists e. tauto.
-  Qed.
-
-  Lemma NoDup_akeys_filter (f : Z * V -> bool) l : NoDup (akeys l) -> NoDup (akeys (filter f l)).
-  Proof.
-    induction l as [|[k v] l IH]; cbn; [auto|]. intros Hd. inversion Hd; subst.
-    destruct (f (k, v)); cbn; [|auto]. constructor; [|auto].
-    intros H. apply H1. eapply akeys_filter_in. exact H.
-  Qed.
-
-  Lemma alookup_filter_keep (f : Z * V -> bool) l k v :
-    NoDup (akeys l) -> alookup k l = Some v -> f (k, v) = true -> alookup k (filter f l) = Some v.
-  Proof.
-    intros Hd Hl Hf. apply In_alookup; [now apply NoDup_akeys_filter|].
-    apply filter_In. split; [now apply alookup_In|assumption].
-  Qed.
-End AssocLemmas.
-
-Lemma zmem_In x l : zmem x l = true <-> In x l.
-Proof.
-  induction l as [|y l IH]; cbn; [split; [discriminate|tauto]|].
-  rewrite orb_true_iff, IH. split; intros [H|H]; auto; [left; lia|left; lia].
-Qed.
-
-Lemma zinsert_perm x l : Permutation (x :: l) (zinsert x l).
-Proof.
-  induction l as [|y l IH]; cbn; [reflexivity|].
-  destruct (x <=? y); [reflexivity|].
-  eapply perm_trans; [apply perm_swap|]. now apply perm_skip.
-Qed.
-
-Lemma zsort_perm l : Permutation l (zsort l).
-Proof.
-  induction l as [|x l IH]; cbn; [reflexivity|].
-  eapply perm_trans; [|apply zinsert_perm]. now apply perm_skip.
-Qed.
-
-Lemma zsort_In x l : In x (zsort l) <-> In x l.
-Proof.
-  split; intros H.
-  - eapply Permutation_in; [apply Permutation_sym, zsort_perm|exact H].
-  - eapply Permutation_in; [apply zsort_perm|exact H].
-Qed.
-
-Lemma zsort_NoDup l : NoDup l -> NoDup (zsort l).
-Proof. intros H. eapply Permutation_NoDup; [apply zsort_perm|exact H]. Qed.
-
-Lemma zsort_nil l : zsort l = [] -> l = [].
-Proof.
-  intros H. pose proof (zsort_perm l) as P. rewrite H in P. now apply Permutation_nil, Permutation_sym.
-Qed.
-
-Lemma zdedup_In x l : In x (zdedup l) <-> In x l.
-Proof.
-  induction l as [|y l IH]; cbn; [tauto|].
-  destruct (zmem y l) eqn:E.
-  - rewrite IH. split; [tauto|]. intros [H|H]; [subst; now apply zmem_In|assumption].
-  - cbn. rewrite IH. tauto.
-Qed.
-
-Lemma zdedup_NoDup l : NoDup (zdedup l).
-Proof.
-  induction l as [|y l IH]; cbn; [constructor|].
-  destruct (zmem y l) eqn:E; [assumption|].
-  constructor; [|assumption]. rewrite zdedup_In. intros H. apply zmem_In in H. congruence.
-Qed.
-
-(* ================= round-robin: a partition of the topic's partitions ================= *)
-Lemma rr_pick_sub elig ps i id p : In p (rr_pick elig ps i id) -> In p ps.
-Proof.
-  revert i; induction ps as [|q ps IH]; intros i; cbn; [tauto|].
-  destruct (_ =? id); cbn; intros H; [destruct H|]; eauto.
-Qed.
-
-Lemma rr_pick_owner elig ps i id p :
-  elig <> [] -> In p (rr_pick elig ps i id) -> In id elig.
-Proof.
-  intros Hne. revert i; induction ps as [|q ps IH]; intros i; cbn; [tauto|].
-  destruct (nth (i mod length elig) elig (-1) =? id) eqn:E; cbn.
-  - intros _. assert (nth (i mod length elig) elig (-1) = id) as <- by lia.
-    apply nth_In. apply Nat.mod_upper_bound. destruct elig; [congruence|cbn; lia].
-  - apply IH.
-Qed.
-
-(* every partition goes to somebody *)
-Lemma rr_pick_total elig ps i p :
-  elig <> [] -> In p ps -> exists id, In id elig /\ In p (rr_pick elig ps i id).
-Proof.
-  intros Hne. revert i; induction ps as [|q ps IH]; intros i; cbn; [tauto|].
-  intros [->|H].
-  - exists (nth (i mod length elig) elig (-1)). split.
-    + apply nth_In. apply Nat.mod_upper_bound. destruct elig; [congruence|cbn; lia].
-    + rewrite Z.eqb_refl. now left.
-  - destruct (IH (S i) H) as [id [H1 H2]]. exists id. split; [assumption|].
-    destruct (_ =? id); [now right|assumption].
-Qed.
-
-(* with distinct partition ids nobody shares a partition *)
-Lemma rr_pick_unique elig ps i a b p :
-  NoDup ps -> In p (rr_pick elig ps i a) -> In p (rr_pick elig ps i b) -> a = b.
-Proof.
-  revert i; induction ps as [|q ps IH]; intros i Hd; cbn; [tauto|].
-  inversion Hd as [|? ? Hq Hd']; subst.
-  destruct (nth (i mod length elig) elig (-1) =? a) eqn:Ea;
-    destruct (nth (i mod length elig) elig (-1) =? b) eqn:Eb; cbn; intros Ha Hb.
-  - lia.
-  - destruct Ha as [->|Ha]; [|eauto]. exfalso. apply Hq. eapply rr_pick_sub; eauto.
-  - destruct Hb as [->|Hb]; [|eauto]. exfalso. apply Hq. eapply rr_pick_sub; eauto.
-  - eauto.
-Qed.
-
-(* ================= assignPartitions over a subscription map ================= *)
-Section AssignFor.
-  Variable E : env.
-  Variable sm : list (Z * list Z).
-
-  Lemma eligible_In id t : In id (eligible sm t) <-> In id (akeys sm) /\ subscribes sm id t = true.
-  Proof. unfold eligible. rewrite filter_In, zsort_In. tauto. Qed.
-
-  Lemma eligible_NoDup t : NoDup (akeys sm) -> NoDup (eligible sm t).
-  Proof. intros H. unfold eligible. apply NoDup_filter. now apply zsort_NoDup. Qed.
-
-  Lemma subscribed_topics_In t :
-    In t (subscribed_topics sm) <-> exists id ts, In (id, ts) sm /\ In t ts.
-  Proof.
-    unfold subscribed_topics. rewrite zsort_In, zdedup_In, in_flat_map. split.
-    - intros [[id ts] [H1 H2]]. exists id, ts. auto.
-    - intros [id [ts [H1 H2]]]. exists (id, ts). auto.
-  Qed.
-
-  Lemma subscribes_topic id t :
-    subscribes sm id t = true -> In t (subscribed_topics sm).
-  Proof.
-    unfold subscribes. destruct (alookup id sm) eqn:El; [|discriminate]. intros H.
-    apply subscribed_topics_In. exists id, l. split; [now apply alookup_In|now apply zmem_In].
-  Qed.
-
-  Lemma assign_for_In id t ps :
-    In (t, ps) (assign_for E sm id) <->
-    In t (subscribed_topics sm) /\ ps = assign_topic E sm id t /\ ps <> [].
-  Proof.
-    unfold assign_for. rewrite in_flat_map. split.
-    - intros [t' [H1 H2]]. destruct (assign_topic E sm id t') eqn:Ea; [destruct H2|].
-      destruct H2 as [H2|[]]. inversion H2; subst. rewrite Ea. repeat split; auto. discriminate.
-    - intros [H1 [H2 H3]]. exists t. split; [assumption|].
-      rewrite <- H2. destruct ps; [congruence|now left].
-  Qed.
-
-  (* no member receives a partition of a topic it did not subscribe to; only real partitions *)
-  Lemma assign_for_sound id t ps p :
-    In (t, ps) (assign_for E sm id) -> In p ps ->
-    In id (akeys sm) /\ subscribes sm id t = true /\ In p (parts_of E t).
-  Proof.
-    intros H Hp. apply assign_for_In in H as [_ [-> _]]. unfold assign_topic in Hp.
-    destruct (eligible sm t) as [|e el] eqn:Ee; [destruct Hp|].
-    assert (In id (eligible sm t)) as Hi.
-    { rewrite Ee. eapply rr_pick_owner; [discriminate|exact Hp]. }
-    apply eligible_In in Hi as [H1 H2]. repeat split; auto. eapply rr_pick_sub; eauto.
-  Qed.
-
-  (* each partition of each subscribed topic goes to a current member *)
-  Lemma assign_for_total id0 t p :
-    In id0 (akeys sm) -> subscribes sm id0 t = true -> In p (parts_of E t) ->
-    exists id ps, In (t, ps) (assign_for E sm id) /\ In p ps.
-  Proof.
-    intros Hk Hs Hp.
-    assert (In id0 (eligible sm t)) as Hi by (apply eligible_In; auto).
-    destruct (eligible sm t) as [|e el] eqn:Ee; [destruct Hi|].
-    destruct (rr_pick_total (e :: el) (parts_of E t) 0 p) as [id [H1 H2]]; [discriminate|assumption|].
-    exists id, (assign_topic E sm id t). split.
-    - apply assign_for_In. split; [eapply subscribes_topic; eauto|]. split; [reflexivity|].
-      unfold assign_topic. rewrite Ee. intros Hnil. rewrite Hnil in H2. destruct H2.
-    - unfold assign_topic. now rewrite Ee.
-  Qed.
-
-  (* ... to exactly one *)
-  Lemma assign_for_unique a b t psa psb p :
-    NoDup (parts_of E t) ->
-    In (t, psa) (assign_for E sm a) -> In p psa ->
-    In (t, psb) (assign_for E sm b) -> In p psb -> a = b.
-  Proof.
-    intros Hd Ha Hpa Hb Hpb.
-    apply assign_for_In in Ha as [_ [-> _]]. apply assign_for_In in Hb as [_ [-> _]].
-    unfold assign_topic in *. destruct (eligible sm t) as [|e el]; [destruct Hpa|].
-    eapply rr_pick_unique; eauto.
-  Qed.
-
-  (* one entry per topic *)
-  Lemma assign_for_topic_once id t ps1 ps2 :
-    In (t, ps1) (assign_for E sm id) -> In (t, ps2) (assign_for E sm id) -> ps1 = ps2.
-  Proof.
-    intros H1 H2. apply assign_for_In in H1 as [_ [-> _]]. apply assign_for_In in H2 as [_ [-> _]].
-    reflexivity.
-  Qed.
-End AssignFor.
-
-(* ================= well-formed groups ================= *)
-Definition keys (g : group) : list Z := akeys (g_members g).
-
-Record wf (E : env) (g : group) : Prop := mkWf {
-  wf_nodup : NoDup (keys g);
-  wf_nonempty : g_members g <> [];
-  wf_leader : exists l, g_leader g = Some l /\ In l (keys g);
-  wf_phase : g_phase g = PPreparing \/ g_phase g = PCompleting \/ g_phase g = PStable;
-  wf_joined : g_phase g <> PPreparing -> all_joined g = true;
-  wf_noassign : g_phase g <> PStable -> g_assign g = [];
-  wf_assign : g_phase g = PStable -> forall id, In id (keys g) ->
-              assignment_of g id = assign_for E (subs (g_members g)) id;
-  wf_session : forall id m, In (id, m) (g_members g) -> 0 < m_session m;
-  wf_rebto : 0 < g_rebto g
+(* ---- startRebalance ---- *)
+Record basic (g : group) : Prop := mkBasic {
+  b_nodup : NoDup (keys g);
+  b_nonempty : g_members g <> [];
+  b_session : forall id m, In (id, m) (g_members g) -> 0 < m_session m;
+  b_rebto : 0 < g_rebto g
 }.
 
-Lemma phase_eqb_eq a b : phase_eqb a b = true <-> a = b.
-Proof. destruct a, b; cbn; split; intros H; try reflexivity; try discriminate. Qed.
+Lemma wf_basic E g : wf E g -> basic g.
+Proof. intros [? ? ? ? ? ? ? ? ?]. constructor; assumption. Qed.
 
-Lemma phase_eqb_neq a b : phase_eqb a b = false <-> a <> b.
-Proof. destruct a, b; cbn; split; intros H; try reflexivity; try discriminate; try congruence. Qed.
+Lemma reset_nonempty ms : ms <> [] -> reset_joingen ms <> [].
+Proof. destruct ms; [congruence|discriminate]. Qed.
 
-Lemma akeys_subs ms : akeys (subs ms) = akeys ms.
-Proof. unfold akeys, subs. rewrite map_map. reflexivity. Qed.
-
-Lemma alookup_subs id ms : alookup id (subs ms) = option_map m_topics (alookup id ms).
+Lemma start_rebalance_spec E timeout now g :
+  basic g ->
+  let r := start_rebalance timeout now g in
+  wf E r /\ g_gen r = g_gen g + 1 /\ g_phase r = PPreparing /\
+  g_members r = reset_joingen (g_members g) /\
+  (forall l, g_leader g = Some l -> In l (keys g) -> g_leader r = Some l).
 Proof.
-  induction ms as [|[k m] ms IH]; cbn; [reflexivity|]. destruct (id =? k); [reflexivity|exact IH].
+  intros [Hd Hne Hs Hr]. cbn zeta. unfold start_rebalance.
+  destruct (g_members g) as [|e ms] eqn:Em; [congruence|]. rewrite <- Em in *.
+  set (rebto := if timeout >? 0 then timeout else if g_rebto g =? 0 then default_rebalance else g_rebto g).
+  assert (0 < rebto) as Hrt.
+  { subst rebto. unfold default_rebalance. destruct (timeout >? 0) eqn:E1; [lia|]. destruct (g_rebto g =? 0); lia. }
+  set (G := mkGroup (g_gen g + 1) (g_leader g) PPreparing (reset_joingen (g_members g)) [] rebto (Some (now + rebto))).
+  destruct (ensure_leader_fields G) as [F1 [F2 [F3 [F4 [F5 F6]]]]].
+  assert (g_members G <> []) as HneG by (cbn; now apply reset_nonempty).
+  destruct (ensure_leader_ok G HneG) as [l [Hl Hin]].
+  assert (keys (ensure_leader G) = keys g) as Hk.
+  { unfold keys. rewrite F3. cbn. apply akeys_reset. }
+  split; [|split; [|split; [|split]]].
+  - constructor.
+    + now rewrite Hk.
+    + now rewrite F3.
+    + exists l. split; [assumption|]. rewrite Hk. unfold keys, G in Hin. cbn [g_members] in Hin. now rewrite akeys_reset in Hin.
+    + left. now rewrite F2.
+    + rewrite F2. cbn. congruence.
+    + intros _. now rewrite F4.
+    + rewrite F2. cbn. discriminate.
+    + intros id m. rewrite F3. cbn. intros H. apply In_reset in H as [m0 [H1 [H2 _]]]. rewrite H2. eauto.
+    + now rewrite F5.
+  - now rewrite F1.
+  - now rewrite F2.
+  - now rewrite F3.
+  - intros l0 Hl0 Hin0. rewrite (ensure_leader_id G l0); [exact Hl0|exact Hl0|].
+    unfold keys, G. cbn [g_members]. now rewrite akeys_reset.
 Qed.
 
-Lemma subs_aset_same id m m' ms :
-  alookup id ms = Some m -> m_topics m' = m_topics m -> subs (aset id m' ms) = subs ms.
+(* ---- JoinGroup ---- *)
+Lemma topics_eqb_eq a b : topics_eqb a b = true -> a = b.
 Proof.
-  induction ms as [|[k x] ms IH]; cbn; [discriminate|].
-  destruct (id =? k) eqn:Ek; cbn; intros H Ht.
-  - inversion H; subst. assert (id = k) by lia. subst. now rewrite Ht.
-  - f_equal. now apply IH.
+  unfold topics_eqb. revert b; induction a as [|x a IH]; intros [|y b]; cbn; try discriminate; auto.
+  intros H. apply andb_true_iff in H as [H1 H2]. f_equal; [lia|auto].
 Qed.
 
-Lemma aset_aset {V} k (v v' : V) l : aset k v' (aset k v l) = aset k v' l.
+(* wf with the joined-condition relaxed for the member that is joining right now *)
+Record wfj (E : env) (id : Z) (g : group) : Prop := mkWfj {
+  j_nodup : NoDup (keys g);
+  j_nonempty : g_members g <> [];
+  j_leader : exists l, g_leader g = Some l /\ In l (keys g);
+  j_phase : g_phase g = PPreparing \/ g_phase g = PCompleting \/ g_phase g = PStable;
+  j_joined : g_phase g <> PPreparing -> forall k m, In (k, m) (g_members g) -> k <> id -> m_joingen m = g_gen g;
+  j_noassign : g_phase g <> PStable -> g_assign g = [];
+  j_assign : g_phase g = PStable -> forall k, In k (keys g) ->
+              assignment_of g k = assign_for E (subs (g_members g)) k;
+  j_session : forall k m, In (k, m) (g_members g) -> 0 < m_session m;
+  j_rebto : 0 < g_rebto g
+}.
+
+Lemma all_joined_In g k m : all_joined g = true -> In (k, m) (g_members g) -> m_joingen m = g_gen g.
 Proof.
-  induction l as [|[k2 v2] l IH]; cbn.
-  - now rewrite Z.eqb_refl.
-  - destruct (k =? k2) eqn:E; cbn; [now rewrite Z.eqb_refl|]. rewrite E. now f_equal.
+  unfold all_joined. rewrite forallb_forall. intros H Hin. specialize (H _ Hin). cbn in H. lia.
 Qed.
 
-(* ---- ensure_leader ---- *)
-Lemma sorted_ids_head g : g_members g <> [] -> exists k, hd_error (sorted_ids g) = Some k /\ In k (keys g).
+Lemma wf_wfj E id g : wf E g -> wfj E id g.
 Proof.
-  intros Hne. unfold sorted_ids. destruct (zsort (akeys (g_members g))) as [|k l] eqn:Es.
-  - apply zsort_nil in Es. destruct (g_members g); [congruence|discriminate].
-  - exists k. split; [reflexivity|]. unfold keys. apply zsort_In. rewrite Es. now left.
+  intros [? ? ? ? Hj ? ? ? ?]. constructor; try assumption.
+  intros Hp k m Hin _. eapply all_joined_In; eauto.
 Qed.
 
-Lemma ensure_leader_fields g :
-  g_gen (ensure_leader g) = g_gen g /\ g_phase (ensure_leader g) = g_phase g /\
-  g_members (ensure_leader g) = g_members g /\ g_assign (ensure_leader g) = g_assign g /\
-  g_rebto (ensure_leader g) = g_rebto g /\ g_deadline (ensure_leader g) = g_deadline g.
+(* stage 3 of JoinGroup: member.joinGeneration = generationID *)
+Lemma join_stage3 E id g :
+  wfj E id g -> In id (keys g) ->
+  wf E (with_members g (set_joingen id (g_gen g) (g_members g))).
 Proof.
-  unfold ensure_leader. destruct (g_leader g) as [l|]; [destruct (amem l (g_members g))|]; cbn; auto 10.
+  intros [Hd Hne Hl Hp Hj Hna Ha Hs Hr] Hin.
+  assert (keys (with_members g (set_joingen id (g_gen g) (g_members g))) = keys g) as Hk.
+  { unfold keys. cbn. apply akeys_set_joingen. }
+  constructor; cbn [with_members g_members g_phase g_gen g_leader g_assign g_rebto].
+  - now rewrite Hk.
+  - intros H. apply (f_equal akeys) in H. rewrite akeys_set_joingen in H.
+    destruct (g_members g); [congruence|discriminate].
+  - destruct Hl as [l [H1 H2]]. exists l. rewrite Hk. auto.
+  - assumption.
+  - intros Hpp. unfold all_joined. cbn. apply set_joingen_joined; auto.
+    intros k m H1 H2. eapply Hj; eauto.
+  - assumption.
+  - intros Hst k Hk'. rewrite Hk in Hk'. unfold assignment_of. cbn. rewrite subs_set_joingen.
+    apply (Ha Hst k Hk').
+  - intros k m H. apply In_set_joingen in H as [m0 [H1 [H2 _]]]. rewrite H2. eauto.
+  - assumption.
 Qed.
 
-Lemma ensure_leader_ok g :
-  g_members g <> [] -> exists l, g_leader (ensure_leader g) = Some l /\ In l (keys g).
+(* stage 1: the (new or refreshed) member is stored *)
+Lemma join_stage1 E g id m1 :
+  wf E g -> 0 < m_session m1 ->
+  (g_phase g = PStable -> exists m0, alookup id (g_members g) = Some m0 /\ m_topics m1 = m_topics m0) ->
+  wfj E id (with_members g (aset id m1 (g_members g))) /\
+  In id (keys (with_members g (aset id m1 (g_members g)))).
 Proof.
-  intros Hne. destruct (sorted_ids_head g Hne) as [k [Hk Hin]].
-  unfold ensure_leader. destruct (sorted_ids g) as [|k' r]; [discriminate|]. inversion Hk; subst.
-  destruct (g_leader g) as [l|] eqn:El.
-  - destruct (amem l (g_members g)) eqn:Em.
-    + exists l. split; [assumption|]. now apply amem_In.
-    + exists k. cbn. auto.
-  - exists k. cbn. auto.
+  intros [Hd Hne Hl Hp Hj Hna Ha Hs Hr] Hs1 Hst. split.
+  - constructor; unfold keys; cbn [with_members g_members g_phase g_gen g_leader g_assign g_rebto].
+    + now apply NoDup_akeys_aset.
+    + apply aset_nonempty.
+    + destruct Hl as [l [H1 H2]]. exists l. split; [assumption|]. apply akeys_aset_in. now right.
+    + assumption.
+    + intros Hpp k m H Hn. apply In_aset_strong in H; [|exact Hd]. destruct H as [[? _]|[_ H]]; [congruence|].
+      eapply all_joined_In; eauto.
+    + assumption.
+    + intros Hs2 k Hk. destruct (Hst Hs2) as [m0 [Hl0 Ht]].
+      rewrite (subs_aset_same id m0 m1) by assumption.
+      rewrite akeys_aset_present in Hk by (apply amem_In; unfold amem; now rewrite Hl0).
+      apply (Ha Hs2 k Hk).
+    + intros k m H. apply In_aset in H as [H|H]; [inversion H; subst; assumption|eauto].
+    + assumption.
+  - unfold keys. cbn [with_members g_members]. apply akeys_aset_in. now left.
 Qed.
 
-Lemma ensure_leader_id g l : g_leader g = Some l -> In l (keys g) -> ensure_leader g = g.
+Lemma wfj_basic E id g : wfj E id g -> basic g.
+Proof. intros [? ? ? ? ? ? ? ? ?]. constructor; assumption. Qed.
+
+Lemma bump_wfj E id timeout now g : wfj E id g -> g_phase g <> PStable -> wfj E id (bump_deadline timeout now g).
 Proof.
-  intros Hl Hin. unfold ensure_leader. rewrite Hl.
-  apply amem_In in Hin. now rewrite Hin.
+  intros [Hd Hne Hl Hp Hj Hna Ha Hs Hr] Hns. unfold bump_deadline.
+  constructor; cbn [g_members g_phase g_gen g_leader g_assign g_rebto keys]; try assumption.
+  unfold default_rebalance. destruct (timeout >? 0) eqn:E1; [lia|]. destruct (g_rebto g =? 0); lia.
 Qed.
 
-(* ---- reset_joingen / set_joingen ---- *)
-Lemma akeys_reset ms : akeys (reset_joingen ms) = akeys ms.
-Proof. unfold akeys, reset_joingen. rewrite map_map. reflexivity. Qed.
+(* the tail of JoinGroup: ensureLeader if "", completeIfReady *)
+Definition join_tail (g3 : group) (id : Z) : outcome :=
+  let g4 := match g_leader g3 with None => ensure_leader g3 | Some _ => g3 end in
+  let '(g5, ready) :=
+    if phase_eqb (g_phase g4) PStable || phase_eqb (g_phase g4) PCompleting
+    then (g4, true) else complete_if_ready g4 in
+  let is_leader := opt_z_eqb (g_leader g5) (Some id) in
+  Save g5 (RJoin (if ready then NONE else REBALANCE_IN_PROGRESS) (g_gen g5) (g_leader g5) id
+                 (if ready && is_leader then member_list g5 else [])).
 
-Lemma subs_reset ms : subs (reset_joingen ms) = subs ms.
-Proof. unfold subs, reset_joingen. rewrite map_map. reflexivity. Qed.
+Ltac triv := first [reflexivity | assumption | congruence].
 
-Lemma In_reset id m ms : In (id, m) (reset_joingen ms) ->
-  exists m0, In (id, m0) ms /\ m_session m = m_session m0 /\ m_topics m = m_topics m0 /\ m_hb m = m_hb m0.
+Lemma complete_if_ready_eq g :
+  g_members g <> [] ->
+  complete_if_ready g =
+  if all_joined g
+  then (mkGroup (g_gen g) (g_leader g) PCompleting (g_members g) (g_assign g) (g_rebto g) None, true)
+  else (g, false).
+Proof. unfold complete_if_ready. destruct (g_members g); [congruence|reflexivity]. Qed.
+
+Lemma join_tail_spec E g3 id :
+  wf E g3 ->
+  exists g5 e ms, join_tail g3 id = Save g5 (RJoin e (g_gen g5) (g_leader g5) id ms) /\
+    wf E g5 /\ g_gen g5 = g_gen g3 /\ g_members g5 = g_members g3 /\ g_leader g5 = g_leader g3 /\
+    g_assign g5 = g_assign g3 /\
+    (e = NONE \/ e = REBALANCE_IN_PROGRESS) /\
+    (e = NONE <-> g_phase g5 <> PPreparing) /\
+    (g_phase g3 <> PPreparing -> g5 = g3) /\
+    (ms <> [] -> e = NONE /\ g_leader g5 = Some id).
 Proof.
-  unfold reset_joingen. rewrite in_map_iff. intros [[k m0] [H1 H2]]. cbn in H1. inversion H1; subst.
-  exists m0. cbn. auto.
+  intros Hwf. pose proof Hwf as [Hd Hne [l [Hl Hlin]] Hp Hj Hna Ha Hs Hr].
+  unfold join_tail. rewrite Hl.
+  assert (forall b ld (L : list (Z * list Z)), ld = Some l ->
+            (if b && opt_z_eqb ld (Some id) then L else []) <> [] ->
+            b = true /\ ld = Some id) as Hml.
+  { intros b ld L Hl5 H. subst ld. destruct b; [|cbn in H; congruence].
+    cbn in H. destruct (l =? id) eqn:El; [|congruence]. split; [reflexivity|f_equal; lia]. }
+  destruct (phase_eqb (g_phase g3) PStable || phase_eqb (g_phase g3) PCompleting) eqn:Eph.
+  - exists g3, NONE. eexists. split; [triv|].
+    split; [exact Hwf|]. split; [triv|]. split; [triv|]. split; [triv|].
+    split; [triv|]. split; [now left|]. split; [|split].
+    + split; [|reflexivity]. intros _.
+      apply orb_true_iff in Eph as [H|H]; apply phase_eqb_eq in H; congruence.
+    + reflexivity.
+    + intros H. eapply Hml in H; [|exact Hl]. tauto.
+  - assert (g_phase g3 = PPreparing) as Hprep.
+    { apply orb_false_iff in Eph as [H1 H2]. apply phase_eqb_neq in H1, H2. intuition congruence. }
+    rewrite complete_if_ready_eq by exact Hne.
+    destruct (all_joined g3) eqn:Eaj.
+    + eexists. exists NONE. eexists. split; [triv|].
+      cbn [g_gen g_members g_leader g_assign g_phase].
+      split; [|split; [triv|split; [triv|split; [triv|split; [triv|split; [now left|split; [|split]]]]]]].
+      * constructor; cbn [g_gen g_members g_leader g_assign g_phase g_rebto keys].
+        -- exact Hd.
+        -- exact Hne.
+        -- exists l. split; [triv|exact Hlin].
+        -- right; left; reflexivity.
+        -- intros _. exact Eaj.
+        -- intros _. apply Hna. congruence.
+        -- intros H; discriminate H.
+        -- exact Hs.
+        -- exact Hr.
+      * split; [discriminate|reflexivity].
+      * intros H. congruence.
+      * intros H. eapply Hml in H; [|exact Hl]. tauto.
+    + exists g3, REBALANCE_IN_PROGRESS. eexists. split; [triv|].
+      split; [exact Hwf|]. split; [triv|]. split; [triv|]. split; [triv|].
+      split; [triv|]. split; [now right|]. split; [|split].
+      * split; [discriminate|]. intros H. congruence.
+      * reflexivity.
+      * intros H. cbn in H. congruence.
 Qed.
 
-Lemma akeys_set_joingen id gen ms : akeys (set_joingen id gen ms) = akeys ms.
+Lemma join_g_unfold g mid fresh sess reb topics now :
+  join_g g mid fresh sess reb topics now =
+  let timeout := if reb >? 0 then reb else default_rebalance in
+  let exists_ := amem mid (g_members g) in
+  let id := if exists_ then mid else fresh in
+  let m0 := match alookup mid (g_members g) with Some m => m | None => mkMember [] 0 0 0 end in
+  let session := if sess >? 0 then sess
+                 else if m_session m0 =? 0 then default_session else m_session m0 in
+  let changed := exists_ && negb (topics_eqb (m_topics m0) topics) in
+  let g1 := with_members g (aset id (mkMember topics session now (m_joingen m0)) (g_members g)) in
+  let g2 :=
+    if (Z.of_nat (length (g_members g1)) =? 1) && phase_eqb (g_phase g1) PEmpty
+    then start_rebalance timeout now (with_leader g1 (Some id))
+    else if phase_eqb (g_phase g1) PStable && (negb exists_ || changed)
+    then start_rebalance timeout now g1
+    else if phase_eqb (g_phase g1) PEmpty
+    then start_rebalance timeout now g1
+    else if phase_eqb (g_phase g1) PPreparing || phase_eqb (g_phase g1) PCompleting
+    then bump_deadline timeout now g1
+    else g1 in
+  join_tail (with_members g2 (set_joingen id (g_gen g2) (g_members g2))) id.
 Proof.
-  unfold set_joingen. destruct (alookup id ms) eqn:El; [|reflexivity].
-  apply akeys_aset_present. apply amem_In. unfold amem. now rewrite El.
+  unfold join_g, join_tail, amem. destruct (alookup mid (g_members g)); reflexivity.
 Qed.
 
-Lemma subs_set_joingen id gen ms : subs (set_joingen id gen ms) = subs ms.
+Definition join_id (g : group) (mid fresh : Z) : Z := if amem mid (g_members g) then mid else fresh.
+
+Lemma join_g_spec E g mid fresh sess reb topics now :
+  wf E g \/ g = new_group ->
+  exists g5 e ms, join_g g mid fresh sess reb topics now =
+                  Save g5 (RJoin e (g_gen g5) (g_leader g5) (join_id g mid fresh) ms) /\
+    wf E g5 /\ g_gen g <= g_gen g5 /\ In (join_id g mid fresh) (keys g5) /\
+    (e = NONE \/ e = REBALANCE_IN_PROGRESS) /\
+    (e = NONE <-> g_phase g5 <> PPreparing) /\
+    (ms <> [] -> e = NONE /\ g_leader g5 = Some (join_id g mid fresh)) /\
+    (forall k, In k (keys g5) <-> k = join_id g mid fresh \/ In k (keys g)).
 Proof.
-  unfold set_joingen. destruct (alookup id ms) eqn:El; [|reflexivity].
-  eapply subs_aset_same; eauto.
+  intros Hg. rewrite join_g_unfold. cbn zeta. fold (join_id g mid fresh).
+  set (id := join_id g mid fresh).
+  set (timeout := if reb >? 0 then reb else default_rebalance).
+  set (m0 := match alookup mid (g_members g) with Some m => m | None => mkMember [] 0 0 0 end).
+  set (session := if sess >? 0 then sess else if m_session m0 =? 0 then default_session else m_session m0).
+  set (m1 := mkMember topics session now (m_joingen m0)).
+  set (g1 := with_members g (aset id m1 (g_members g))).
+  assert (0 < timeout) as Hto by (subst timeout; unfold default_rebalance; destruct (reb >? 0) eqn:?; lia).
+  (* shape of the conclusion from a wf stage-3 group *)
+  assert (forall g2, wfj E id g2 -> In id (keys g2) -> g_gen g <= g_gen g2 ->
+                     (forall k, In k (keys g2) <-> k = id \/ In k (keys g)) ->
+    exists g5 e ms, join_tail (with_members g2 (set_joingen id (g_gen g2) (g_members g2))) id =
+                    Save g5 (RJoin e (g_gen g5) (g_leader g5) id ms) /\
+      wf E g5 /\ g_gen g <= g_gen g5 /\ In id (keys g5) /\ (e = NONE \/ e = REBALANCE_IN_PROGRESS) /\
+      (e = NONE <-> g_phase g5 <> PPreparing) /\ (ms <> [] -> e = NONE /\ g_leader g5 = Some id) /\
+      (forall k, In k (keys g5) <-> k = id \/ In k (keys g))) as Hfin.
+  { intros g2 Hj Hin Hgen Hkeys. pose proof (join_stage3 E id g2 Hj Hin) as Hw3.
+    destruct (join_tail_spec E _ id Hw3) as [g5 [e [ms [Heq [Hw5 [Hg5 [Hm5 [Hl5 [Ha5 [He [Hph [_ Hms]]]]]]]]]]]].
+    exists g5, e, ms. split; [exact Heq|]. split; [exact Hw5|].
+    assert (keys g5 = keys g2) as Hk.
+    { unfold keys. rewrite Hm5. cbn [with_members g_members]. apply akeys_set_joingen. }
+    cbn [with_members g_gen] in Hg5.
+    split; [lia|]. split; [now rewrite Hk|]. split; [exact He|]. split; [exact Hph|].
+    split; [exact Hms|]. intros k. rewrite Hk. apply Hkeys. }
+  assert (forall k, In k (keys g1) <-> k = id \/ In k (keys g)) as Hk1.
+  { intros k. unfold keys, g1. cbn. apply akeys_aset_in. }
+  destruct Hg as [Hwf|Hnew].
+  - (* an existing, well-formed group *)
+    pose proof Hwf as [Hd Hne Hl Hp Hj Hna Ha Hs Hr].
+    assert (0 < session) as Hses.
+    { subst session. unfold default_session. destruct (sess >? 0) eqn:?; [lia|].
+      destruct (m_session m0 =? 0) eqn:?; [lia|].
+      subst m0. destruct (alookup mid (g_members g)) eqn:El; [|cbn in *; lia].
+      apply alookup_In in El. specialize (Hs _ _ El). lia. }
+    assert (phase_eqb (g_phase g1) PEmpty = false) as Hne1.
+    { apply phase_eqb_neq. cbn. intuition congruence. }
+    rewrite Hne1, andb_false_r.
+    destruct (phase_eqb (g_phase g1) PStable && (negb (amem mid (g_members g)) || amem mid (g_members g) && negb (topics_eqb (m_topics m0) topics))) eqn:Ereb.
+    + (* Stable, new member or changed subscription: rebalance *)
+      assert (basic g1) as Hb.
+      { constructor; unfold g1, keys; cbn.
+        - now apply NoDup_akeys_aset.
+        - apply aset_nonempty.
+        - intros k m H. apply In_aset in H as [H|H]; [inversion H; subst; assumption|eauto].
+        - assumption. }
+      destruct (start_rebalance_spec E timeout now g1 Hb) as [Hw2 [Hg2 [Hp2 [Hm2 _]]]].
+      apply Hfin.
+      * now apply wf_wfj.
+      * unfold keys. rewrite Hm2, akeys_reset. apply Hk1. now left.
+      * rewrite Hg2. cbn. lia.
+      * intros k. unfold keys. rewrite Hm2, akeys_reset. apply Hk1.
+    + (* no rebalance: the member (re)joins the running generation *)
+      assert (g_phase g = PStable -> exists m0', alookup id (g_members g) = Some m0' /\ m_topics m1 = m_topics m0') as Hst.
+      { intros Hst. rewrite (proj2 (phase_eqb_eq (g_phase g1) PStable)) in Ereb by (cbn; assumption).
+        cbn in Ereb. apply orb_false_iff in Ereb as [E1 E2]. apply negb_false_iff in E1.
+        rewrite E1 in E2. cbn in E2. apply negb_false_iff in E2. apply topics_eqb_eq in E2.
+        unfold id, join_id. rewrite E1. unfold amem in E1.
+        destruct (alookup mid (g_members g)) as [mm|] eqn:El; [|discriminate].
+        exists mm. split; [reflexivity|]. subst m1 m0. cbn. now rewrite E2. }
+      destruct (join_stage1 E g id m1 Hwf Hses Hst) as [Hj1 Hin1]. fold g1 in Hj1, Hin1.
+      destruct (phase_eqb (g_phase g1) PPreparing || phase_eqb (g_phase g1) PCompleting) eqn:Epc.
+      * apply Hfin.
+        -- apply bump_wfj; [assumption|]. apply orb_true_iff in Epc as [H|H]; apply phase_eqb_eq in H; congruence.
+        -- exact Hin1.
+        -- cbn. lia.
+        -- exact Hk1.
+      * apply Hfin; [exact Hj1|exact Hin1|cbn; lia|exact Hk1].
+  - (* the group did not exist: ensureGroup made an empty one *)
+    subst g. assert (id = fresh) as Hid by reflexivity.
+    assert (g_members g1 = [(fresh, m1)]) as Hm1 by reflexivity.
+    assert (0 < session) as Hses.
+    { subst session m0. cbn. unfold default_session. destruct (sess >? 0) eqn:?; lia. }
+    assert ((Z.of_nat (length (g_members g1)) =? 1) && phase_eqb (g_phase g1) PEmpty = true) as Hc by reflexivity.
+    rewrite Hc.
+    assert (basic (with_leader g1 (Some id))) as Hb.
+    { constructor; unfold keys; cbn [with_leader g_members g_rebto]; rewrite ?Hm1; cbn.
+      - constructor; [tauto|constructor].
+      - discriminate.
+      - intros k m [H|[]]. injection H as _ Hm'. rewrite <- Hm'. exact Hses.
+      - unfold default_rebalance; lia. }
+    destruct (start_rebalance_spec E timeout now _ Hb) as [Hw2 [Hg2 [Hp2 [Hm2 _]]]].
+    apply Hfin.
+    + now apply wf_wfj.
+    + unfold keys. rewrite Hm2. cbn [with_leader g_members]. rewrite akeys_reset. apply Hk1. now left.
+    + rewrite Hg2. cbn. lia.
+    + intros k. unfold keys. rewrite Hm2. cbn [with_leader g_members]. rewrite akeys_reset. apply Hk1.
 Qed.
 
-Lemma In_set_joingen id gen ms k m : In (k, m) (set_joingen id gen ms) ->
-  exists m0, In (k, m0) ms /\ m_session m = m_session m0 /\ m_topics m = m_topics m0 /\ m_hb m = m_hb m0 /\
-             (m_joingen m = m_joingen m0 \/ (k = id /\ m_joingen m = gen)).
+(* ---- updating one member without touching its subscription / joinGeneration ---- *)
+Lemma wf_update_member E g id m m' :
+  wf E g -> alookup id (g_members g) = Some m ->
+  m_topics m' = m_topics m -> m_joingen m' = m_joingen m -> 0 < m_session m' ->
+  wf E (with_members g (aset id m' (g_members g))).
 Proof.
-  unfold set_joingen. destruct (alookup id ms) eqn:El.
-  - intros H. apply In_aset in H as [H|H].
-    + inversion H; subst. exists m0. split; [now apply alookup_In|]. cbn. auto 10.
-    + exists m. auto 10.
-  - intros H. exists m. auto 10.
+  intros Hwf Hl Ht Hjg Hs'. pose proof Hwf as [Hd Hne Hld Hp Hj Hna Ha Hs Hr].
+  assert (In id (akeys (g_members g))) as Hin by (apply amem_In; unfold amem; now rewrite Hl).
+  assert (keys (with_members g (aset id m' (g_members g))) = keys g) as Hk.
+  { unfold keys. cbn [with_members g_members]. now apply akeys_aset_present. }
+  constructor; cbn [with_members g_members g_phase g_gen g_leader g_assign g_rebto].
+  - now rewrite Hk.
+  - apply aset_nonempty.
+  - destruct Hld as [l [H1 H2]]. exists l. rewrite Hk. auto.
+  - assumption.
+  - intros Hpp. unfold all_joined. cbn [with_members g_members g_gen]. apply forallb_forall.
+    intros [k x] H. cbn. apply In_aset_strong in H; [|exact Hd]. destruct H as [[-> ->]|[_ H]].
+    + rewrite Hjg. apply alookup_In in Hl. rewrite (all_joined_In g id m (Hj Hpp) Hl). lia.
+    + rewrite (all_joined_In g k x (Hj Hpp) H). lia.
+  - assumption.
+  - intros Hst k Hk'. rewrite Hk in Hk'. unfold assignment_of. cbn [with_members g_assign g_members].
+    rewrite (subs_aset_same id m m') by assumption. apply (Ha Hst k Hk').
+  - intros k x H. apply In_aset in H as [H|H]; [inversion H; subst; assumption|eauto].
+  - assumption.
 Qed.
 
-Lemma In_aset_strong {V} k (v : V) l k' v' :
-  NoDup (akeys l) -> In (k', v') (aset k v l) -> (k' = k /\ v' = v) \/ (k' <> k /\ In (k', v') l).
+(* ---- SyncGroup ---- *)
+Lemma alookup_map_self {V} (f : Z -> V) id l :
+  In id l -> alookup id (map (fun k => (k, f k)) l) = Some (f id).
 Proof.
-  induction l as [|[k2 v2] l IH]; cbn; intros Hd H.
-  - destruct H as [H|[]]. inversion H; auto.
-  - inversion Hd as [|? ? Hn Hd']; subst. destruct (k =? k2) eqn:E.
-    + assert (k = k2) by lia. subst k2. destruct H as [H|H].
-      * inversion H; auto.
-      * right. split; [|now right]. intros ->. apply Hn. unfold akeys. apply in_map_iff. now exists (k, v').
-    + destruct H as [H|H].
-      * inversion H; subst. right. split; [lia|now left].
-      * destruct (IH Hd' H) as [?|[? ?]]; [now left|right; split; [assumption|now right]].
+  induction l as [|k l IH]; cbn; [tauto|]. intros H.
+  destruct (id =? k) eqn:E; [f_equal; f_equal; lia|]. apply IH. destruct H; [lia|assumption].
 Qed.
 
-Lemma set_joingen_joined id gen ms :
-  NoDup (akeys ms) -> In id (akeys ms) ->
-  (forall k m, In (k, m) ms -> k <> id -> m_joingen m = gen) ->
-  forallb (fun e => m_joingen (snd e) =? gen) (set_joingen id gen ms) = true.
+Definition sync_post (E : env) (g : group) (mid gen : Z) (o : outcome) : Prop :=
+  match o with
+  | Keep g' (RSync e a) => g' = g /\ e <> NONE /\ a = []
+  | Save g' (RSync e a) =>
+      wf E g' /\ e = NONE /\ gen = g_gen g /\ In mid (keys g) /\ g_phase g <> PPreparing /\
+      g_phase g' = PStable /\ g_gen g' = g_gen g /\ g_members g' = g_members g /\
+      g_leader g' = g_leader g /\ a = assign_for E (subs (g_members g)) mid /\
+      a = assignment_of g' mid /\
+      (g_phase g = PStable -> g' = g) /\ (g_phase g = PCompleting -> g_leader g = Some mid)
+  | _ => False
+  end.
+
+Lemma sync_g_spec E g mid gen : wf E g -> sync_post E g mid gen (sync_g E g mid gen).
 Proof.
-  intros Hd Hin Hall. apply forallb_forall. intros [k m] H. cbn.
-  unfold set_joingen in H. destruct (alookup id ms) eqn:El.
-  - apply In_aset_strong in H as [[-> ->]|[Hn H]]; [|assumption|assumption].
-    + cbn. lia.
-    + rewrite (Hall k m H Hn). lia.
-  - apply amem_In in Hin. unfold amem in Hin. rewrite El in Hin. discriminate.
+  intros Hwf. pose proof Hwf as [Hd Hne Hld Hp Hj Hna Ha Hs Hr].
+  unfold sync_g.
+  destruct (gen =? g_gen g) eqn:Eg; cbn [negb]; [|cbn; repeat split; discriminate].
+  destruct (amem mid (g_members g)) eqn:Em; cbn [negb]; [|cbn; repeat split; discriminate].
+  apply amem_In in Em.
+  destruct (phase_eqb (g_phase g) PPreparing) eqn:Epp; [cbn; repeat split; discriminate|].
+  apply phase_eqb_neq in Epp.
+  destruct (phase_eqb (g_phase g) PCompleting) eqn:Epc.
+  - apply phase_eqb_eq in Epc.
+    rewrite (Hna ltac:(congruence)). cbn [length Z.of_nat Z.eqb andb].
+    destruct (opt_z_eqb (g_leader g) (Some mid)) eqn:El; cbn [negb]; [|cbn; repeat split; discriminate].
+    assert (g_leader g = Some mid) as Hlm.
+    { destruct (g_leader g) as [l|]; cbn in El; [f_equal; lia|discriminate]. }
+    set (g0 := mkGroup (g_gen g) (g_leader g) (g_phase g) (g_members g) (assign_partitions E g) (g_rebto g) (g_deadline g)).
+    assert (mark_stable g0 = mkGroup (g_gen g) (g_leader g) PStable (g_members g) (assign_partitions E g) (g_rebto g) None) as Hms.
+    { unfold mark_stable, g0. cbn [g_phase]. rewrite Epc. reflexivity. }
+    rewrite Hms. clear Hms g0.
+    set (g1 := mkGroup (g_gen g) (g_leader g) PStable (g_members g) (assign_partitions E g) (g_rebto g) None).
+    assert (forall id, In id (keys g) -> assignment_of g1 id = assign_for E (subs (g_members g)) id) as Hasg.
+    { intros id Hin. unfold assignment_of, g1, assign_partitions. cbn [g_assign].
+      rewrite alookup_map_self; [reflexivity|]. unfold sorted_ids. now apply zsort_In. }
+    assert (wf E g1) as Hw1.
+    { constructor; unfold g1; cbn [g_gen g_members g_leader g_assign g_phase g_rebto keys].
+      - exact Hd.
+      - exact Hne.
+      - exact Hld.
+      - right; right; reflexivity.
+      - intros _. apply Hj. congruence.
+      - intros H. congruence.
+      - intros _. exact Hasg.
+      - exact Hs.
+      - exact Hr. }
+    assert (sync_post E g mid gen (Save g1 (RSync NONE (assignment_of g1 mid)))) as Hpost.
+    { cbn. split; [exact Hw1|]. split; [reflexivity|]. split; [lia|]. split; [exact Em|].
+      split; [exact Epp|]. split; [reflexivity|]. split; [reflexivity|]. split; [reflexivity|].
+      split; [reflexivity|]. split; [now apply Hasg|]. split; [reflexivity|].
+      split; [congruence|]. intros _. exact Hlm. }
+    destruct (assignment_of g1 mid) eqn:Ea; [|exact Hpost].
+    assert (phase_eqb (g_phase g1) PStable = true) as -> by reflexivity. exact Hpost.
+  - apply phase_eqb_neq in Epc. cbn [andb].
+    assert (g_phase g = PStable) as Hst by intuition congruence.
+    assert (sync_post E g mid gen (Save g (RSync NONE (assignment_of g mid)))) as Hpost.
+    { cbn. split; [exact Hwf|]. split; [reflexivity|]. split; [lia|]. split; [exact Em|].
+      split; [exact Epp|]. split; [exact Hst|]. split; [reflexivity|]. split; [reflexivity|].
+      split; [reflexivity|]. split; [now apply Ha|]. split; [reflexivity|].
+      split; [reflexivity|]. congruence. }
+    destruct (assignment_of g mid) eqn:Ea; [|exact Hpost].
+    rewrite (proj2 (phase_eqb_eq _ _) Hst). exact Hpost.
+Qed.
+
+(* ---- Heartbeat ---- *)
+Definition hb_post (E : env) (g : group) (mid gen now : Z) (o : outcome) : Prop :=
+  match o with
+  | Keep g' (RErr e) => g' = g /\ e <> NONE
+  | Save g' (RErr e) =>
+      wf E g' /\ gen = g_gen g /\ In mid (keys g) /\
+      g_gen g' = g_gen g /\ g_phase g' = g_phase g /\ g_leader g' = g_leader g /\
+      g_assign g' = g_assign g /\ subs (g_members g') = subs (g_members g) /\
+      (e = NONE <-> g_phase g = PStable) /\
+      (exists m, alookup mid (g_members g) = Some m /\
+                 g_members g' = aset mid (mkMember (m_topics m) (m_session m) now (m_joingen m)) (g_members g))
+  | _ => False
+  end.
+
+Lemma heartbeat_g_spec E g mid gen now : wf E g -> hb_post E g mid gen now (heartbeat_g g mid gen now).
+Proof.
+  intros Hwf. unfold heartbeat_g.
+  destruct (alookup mid (g_members g)) as [m|] eqn:El; [|cbn; split; [reflexivity|discriminate]].
+  destruct (gen =? g_gen g) eqn:Eg; cbn [negb]; [|cbn; split; [reflexivity|discriminate]].
+  cbn. split.
+  - eapply wf_update_member; eauto. cbn. apply (wf_session E g Hwf mid m). now apply alookup_In.
+  - split; [lia|]. split; [apply amem_In; unfold amem; now rewrite El|].
+    split; [reflexivity|]. split; [reflexivity|]. split; [reflexivity|]. split; [reflexivity|].
+    split; [eapply subs_aset_same; eauto|]. split.
+    + destruct (phase_eqb (g_phase g) PStable) eqn:Es.
+      * apply phase_eqb_eq in Es. tauto.
+      * apply phase_eqb_neq in Es. split; [discriminate|tauto].
+    + exists m. auto.
+Qed.
+
+(* ---- LeaveGroup ---- *)
+Lemma akeys_aremove {V} k (l : list (Z * V)) k' : In k' (akeys (aremove k l)) <-> In k' (akeys l) /\ k' <> k.
+Proof.
+  unfold akeys, aremove. rewrite !in_map_iff. split.
+  - intros [e [H1 H2]]. apply filter_In in H2 as [H2 H3]. split; [exists e; auto|].
+    subst k'. destruct (fst e =? k) eqn:E; [discriminate|lia].
+  - intros [[e [H1 H2]] Hn]. exists e. split; [assumption|]. apply filter_In. split; [assumption|].
+    subst k'. destruct (fst e =? k) eqn:E; [lia|reflexivity].
+Qed.
+
+Definition leave_post (E : env) (g : group) (mid : Z) (o : outcome) : Prop :=
+  match o with
+  | Keep g' (RErr e) => g' = g /\ e = UNKNOWN_MEMBER_ID /\ ~ In mid (keys g)
+  | Gone (RErr e) => e = NONE /\ In mid (keys g) /\ (forall k, In k (keys g) -> k = mid)
+  | Save g' (RErr e) =>
+      wf E g' /\ e = NONE /\ In mid (keys g) /\ g_gen g' = g_gen g + 1 /\ g_phase g' = PPreparing /\
+      (forall k, In k (keys g') <-> In k (keys g) /\ k <> mid)
+  | _ => False
+  end.
+
+Lemma leave_g_spec E g mid now : wf E g -> leave_post E g mid (leave_g g mid now).
+Proof.
+  intros Hwf. pose proof Hwf as [Hd Hne Hld Hp Hj Hna Ha Hs Hr]. unfold leave_g.
+  destruct (amem mid (g_members g)) eqn:Em; cbn [negb].
+  2:{ cbn. split; [reflexivity|]. split; [reflexivity|]. now apply amem_false. }
+  apply amem_In in Em. cbn [g_members g_leader].
+  destruct (aremove mid (g_members g)) as [|e0 r0] eqn:Er.
+  - cbn. split; [reflexivity|]. split; [exact Em|]. intros k Hk.
+    destruct (Z.eq_dec k mid) as [|Hn]; [assumption|].
+    assert (In k (akeys (aremove mid (g_members g)))) as H by (apply akeys_aremove; auto).
+    rewrite Er in H. destruct H.
+  - rewrite <- Er.
+    set (g1 := mkGroup (g_gen g) (g_leader g) (g_phase g) (aremove mid (g_members g)) (aremove mid (g_assign g)) (g_rebto g) (g_deadline g)).
+    set (g2 := if opt_z_eqb (g_leader g) (Some mid) then with_leader g1 None else g1).
+    assert (g_members g2 = aremove mid (g_members g) /\ g_rebto g2 = g_rebto g /\ g_gen g2 = g_gen g) as [Hm2 [Hr2 Hg2]].
+    { unfold g2. destruct (opt_z_eqb (g_leader g) (Some mid)); cbn; auto. }
+    assert (basic g2) as Hb.
+    { constructor; unfold keys; rewrite ?Hm2, ?Hr2.
+      - apply NoDup_akeys_filter. exact Hd.
+      - rewrite Er. discriminate.
+      - intros k m H. apply filter_In in H as [H _]. eauto.
+      - assumption. }
+    destruct (start_rebalance_spec E 0 now g2 Hb) as [Hw [Hg [Hp2 [Hm _]]]].
+    cbn. split; [exact Hw|]. split; [reflexivity|]. split; [exact Em|]. split; [lia|]. split; [exact Hp2|].
+    intros k. unfold keys. rewrite Hm, akeys_reset, Hm2. apply akeys_aremove.
+Qed.
+
+(* ---- cleanupGroups ---- *)
+Lemma drop_members_fields dead g :
+  g_gen (drop_members dead g) = g_gen g /\ g_rebto (drop_members dead g) = g_rebto g /\
+  g_deadline (drop_members dead g) = g_deadline g /\
+  g_members (drop_members dead g) = filter (fun e => negb (dead (snd e))) (g_members g).
+Proof. unfold drop_members. cbn. auto. Qed.
+
+Lemma filter_filter' {A} (f h : A -> bool) l : filter f (filter h l) = filter (fun x => h x && f x) l.
+Proof.
+  induction l as [|x l IH]; cbn; [reflexivity|]. destruct (h x); cbn; [|exact IH].
+  destruct (f x); [now f_equal|exact IH].
+Qed.
+
+Definition survives (now : Z) (g : group) (m : member) : bool :=
+  negb (expired now m) &&
+  negb (match g_deadline g with
+        | Some d => negb (now <? d) && lagging (g_gen g) m
+        | None => false
+        end).
+
+Lemma cleanup_members g now :
+  let g1 := fst (remove_expired now g) in
+  let g2 := fst (drop_laggers now g1) in
+  g_members g2 = filter (fun e => survives now g (snd e)) (g_members g) /\
+  g_gen g2 = g_gen g /\ g_rebto g2 = g_rebto g.
+Proof.
+  cbn zeta. unfold remove_expired. cbn [fst].
+  destruct (drop_members_fields (expired now) g) as [F1 [F2 [F3 F4]]].
+  unfold drop_laggers. rewrite F3. unfold survives.
+  destruct (g_deadline g) as [d|].
+  - destruct (now <? d) eqn:Ed; cbn [fst].
+    + rewrite F4, F1, F2. split; [|auto]. apply filter_ext. intros e. cbn. now rewrite andb_true_r.
+    + destruct (drop_members_fields (lagging (g_gen (drop_members (expired now) g))) (drop_members (expired now) g)) as [G1 [G2 [G3 G4]]].
+      rewrite G4, G1, G2, F4, F1, F2. split; [|auto].
+      rewrite filter_filter'. apply filter_ext. intros e. reflexivity.
+  - cbn [fst]. rewrite F4, F1, F2. split; [|auto]. apply filter_ext. intros e. cbn. now rewrite andb_true_r.
+Qed.
+
+Lemma existsb_false {A} (f : A -> bool) l : existsb f l = false -> forall x, In x l -> f x = false.
+Proof.
+  intros H x Hin. destruct (f x) eqn:E; [|reflexivity].
+  assert (existsb f l = true) by (apply existsb_exists; eauto). congruence.
+Qed.
+
+Lemma filter_nil {A} (f : A -> bool) l : filter f l = [] -> forall x, In x l -> f x = false.
+Proof.
+  intros H x Hin. destruct (f x) eqn:E; [|reflexivity].
+  assert (In x (filter f l)) as Hi by (apply filter_In; auto). rewrite H in Hi. destruct Hi.
+Qed.
+
+Definition cleanup_post (E : env) (g : group) (now : Z) (o : option outcome) : Prop :=
+  match o with
+  | None =>
+      (forall k m, In (k, m) (g_members g) -> expired now m = false) /\
+      (forall d, g_deadline g = Some d -> d <= now -> forall k m, In (k, m) (g_members g) -> lagging (g_gen g) m = false)
+  | Some (Gone r) => r = RNone /\ forall k m, In (k, m) (g_members g) -> survives now g m = false
+  | Some (Save g' r) =>
+      r = RNone /\ wf E g' /\ g_gen g' = g_gen g + 1 /\ g_phase g' = PPreparing /\
+      g_members g' = reset_joingen (filter (fun e => survives now g (snd e)) (g_members g))
+  | Some (Keep _ _) => False
+  end.
+
+Lemma cleanup_g_spec E g now : wf E g -> cleanup_post E g now (cleanup_g g now).
+Proof.
+  intros Hwf. pose proof Hwf as [Hd Hne Hld Hp Hj Hna Ha Hs Hr].
+  pose proof (cleanup_members g now) as Hcm. cbn zeta in Hcm.
+  unfold cleanup_g.
+  destruct (remove_expired now g) as [g1 removed] eqn:E1.
+  destruct (drop_laggers now g1) as [g2 lost] eqn:E2.
+  cbn [fst] in Hcm. rewrite E2 in Hcm. cbn [fst] in Hcm. destruct Hcm as [Hm [Hg Hrb]].
+  destruct (g_members g2) as [|e0 r0] eqn:Em2.
+  - cbn. split; [reflexivity|]. intros k m Hin. symmetry in Hm.
+    apply (filter_nil _ _ Hm (k, m) Hin).
+  - destruct (removed || lost) eqn:Erl.
+    + assert (basic g2) as Hb.
+      { constructor; unfold keys.
+        - rewrite Em2, Hm. now apply NoDup_akeys_filter.
+        - rewrite Em2. discriminate.
+        - rewrite Em2, Hm. intros k m H. apply filter_In in H as [H _]. eauto.
+        - rewrite Hrb. assumption. }
+      destruct (start_rebalance_spec E 0 now g2 Hb) as [Hw [Hg2 [Hp2 [Hm2 _]]]].
+      cbn. split; [reflexivity|]. split; [exact Hw|]. split; [lia|]. split; [exact Hp2|].
+      rewrite Hm2, Em2, Hm. reflexivity.
+    + apply orb_false_iff in Erl as [Hrem Hlost]. subst removed lost. cbn.
+      unfold remove_expired in E1. injection E1 as Hg1 Hrem.
+      assert (forall k m, In (k, m) (g_members g) -> expired now m = false) as Hnoexp.
+      { intros k m Hin. unfold any_dead in Hrem. apply (existsb_false _ _ Hrem (k, m) Hin). }
+      split; [exact Hnoexp|].
+      intros d Hdl Hle k m Hin.
+      unfold drop_laggers in E2. destruct (drop_members_fields (expired now) g) as [F1 [F2 [F3 F4]]].
+      rewrite <- Hg1, F3, Hdl in E2. destruct (now <? d) eqn:Ed; [lia|].
+      injection E2 as Hg2' Hl. unfold any_dead, drop_members in Hl. cbn [g_gen g_members] in Hl.
+      apply (existsb_false _ _ Hl (k, m)). apply filter_In. split; [exact Hin|].
+      cbn. now rewrite (Hnoexp k m Hin).
+Qed.
+
+(* ---- persistence round trip ---- *)
+Definition pview (E : env) (g : group) : pgroup := store_clone (e_keep E) (build g).
+
+Lemma alookup_flat_assign (h : Z -> tassign) (ms : list (Z * pmember)) id :
+  NoDup (akeys ms) -> (forall e, In e ms -> pm_assign (snd e) = h (fst e)) ->
+  In id (akeys ms) ->
+  match alookup id (flat_map (fun e => match pm_assign (snd e) with [] => [] | a => [(fst e, a)] end) ms) with
+  | Some a => a | None => [] end = h id.
+Proof.
+  induction ms as [|[k pm] ms IH]; cbn [akeys map fst flat_map]; intros Hd Hh Hin; [destruct Hin|].
+  inversion Hd as [|? ? Hn Hd']; subst.
+  assert (pm_assign pm = h k) as Hk by (apply (Hh (k, pm)); now left).
+  destruct Hin as [->|Hin].
+  - cbn [snd fst]. rewrite Hk. destruct (h id) eqn:Eh.
+    + cbn [app]. destruct (alookup id _) eqn:El; [|reflexivity].
+      apply alookup_In in El. apply in_flat_map in El as [[k2 pm2] [H1 H2]]. cbn in H2.
+      destruct (pm_assign pm2); [destruct H2|]. destruct H2 as [H2|[]]. inversion H2; subst.
+      exfalso. apply Hn. unfold akeys. apply in_map_iff. exists (id, pm2). auto.
+    + cbn. now rewrite Z.eqb_refl.
+  - assert (id <> k) as Hne by (intros ->; contradiction).
+    cbn [snd fst]. rewrite Hk. destruct (h k) eqn:Eh.
+    + cbn [app]. apply IH; auto. intros e He. apply Hh. now right.
+    + cbn. destruct (id =? k) eqn:E; [lia|]. apply IH; auto. intros e He. apply Hh. now right.
+Qed.
+
+Lemma flat_assign_nil (ms : list (Z * pmember)) :
+  (forall e, In e ms -> pm_assign (snd e) = []) ->
+  flat_map (fun e => match pm_assign (snd e) with [] => [] | a => [(fst e, a)] end) ms = [].
+Proof.
+  induction ms as [|e ms IH]; cbn; [reflexivity|]. intros H.
+  rewrite (H e) by now left. cbn. apply IH. intros e' He'. apply H. now right.
+Qed.
+
+Lemma restore_spec E g now :
+  wf E g ->
+  let r := restore (pview E g) now in
+  wf E r /\ pview E r = pview E g /\
+  g_gen r = g_gen g /\ g_phase r = g_phase g /\ g_leader r = g_leader g /\
+  subs (g_members r) = subs (g_members g) /\
+  (forall id, In id (keys g) -> assignment_of r id = assignment_of g id) /\
+  (forall id, option_map m_hb (alookup id (g_members r)) = option_map m_hb (alookup id (g_members g))) /\
+  (e_keep E = true -> forall id, option_map m_session (alookup id (g_members r)) = option_map m_session (alookup id (g_members g))).
+Proof.
+  intros Hwf. pose proof Hwf as [Hd Hne [l [Hl Hlin]] Hp Hj Hna Ha Hs Hr]. cbn zeta.
+  set (keep := e_keep E).
+  set (sess := fun s : Z => if keep then (if s >? 0 then s else 0) else 0).
+  set (F := fun e : Z * member => (fst e, mkPM (m_topics (snd e)) (sess (m_session (snd e))) (m_hb (snd e)) (assignment_of g (fst e)))).
+  set (prebto := if keep then (if g_rebto g >? 0 then g_rebto g else 0) else 0).
+  assert (pview E g = mkPG (g_phase g) (g_leader g) (g_gen g) prebto (map F (g_members g))) as Hpv.
+  { unfold pview, store_clone, build. fold keep. subst prebto F sess. destruct keep; cbn.
+    - reflexivity.
+    - f_equal. rewrite map_map. reflexivity. }
+  rewrite Hpv. unfold restore. cbn [pg_phase pg_leader pg_gen pg_rebto pg_members].
+  set (rebto := if prebto >? 0 then prebto else default_rebalance).
+  set (G := fun e : Z * pmember => (fst e, mkMember (pm_topics (snd e)) (if pm_session (snd e) >? 0 then pm_session (snd e) else default_session) (pm_hb (snd e)) (g_gen g))).
+  set (ms' := map G (map F (g_members g))).
+  set (asg := flat_map (fun e : Z * pmember => match pm_assign (snd e) with [] => [] | a => [(fst e, a)] end) (map F (g_members g))).
+  set (dl := match g_phase g with PPreparing | PCompleting => Some (now + rebto) | _ => None end).
+  set (R := mkGroup (g_gen g) (g_leader g) (g_phase g) ms' asg rebto dl).
+  assert (akeys ms' = akeys (g_members g)) as Hk.
+  { unfold ms', akeys. rewrite !map_map. reflexivity. }
+  assert (ensure_leader R = R) as HR.
+  { apply (ensure_leader_id R l); [exact Hl|]. unfold keys, R. cbn [g_members]. now rewrite Hk. }
+  rewrite HR.
+  assert (akeys (map F (g_members g)) = akeys (g_members g)) as HkF.
+  { unfold akeys. rewrite map_map. reflexivity. }
+  assert (forall id, In id (keys g) -> assignment_of R id = assignment_of g id) as Hasg.
+  { intros id Hin. unfold assignment_of at 1. unfold R. cbn [g_assign]. unfold asg.
+    apply (alookup_flat_assign (assignment_of g)).
+    - now rewrite HkF.
+    - intros e He. apply in_map_iff in He as [e0 [<- _]]. reflexivity.
+    - now rewrite HkF. }
+  assert (subs ms' = subs (g_members g)) as Hsubs.
+  { unfold ms', subs. rewrite !map_map. reflexivity. }
+  assert (0 < rebto) as Hrebto.
+  { subst rebto prebto. unfold default_rebalance. destruct keep; [|cbn; lia].
+    destruct (g_rebto g >? 0) eqn:E1; [rewrite E1; lia|lia]. }
+  assert (forall s, 0 < s -> keep = true -> (if sess s >? 0 then sess s else default_session) = s) as Hsess_keep.
+  { intros s H0 Hk'. subst sess. cbn. rewrite Hk'. destruct (s >? 0) eqn:E1; [now rewrite E1|lia]. }
+  assert (forall id, alookup id ms' = option_map (fun m => snd (G (F (id, m)))) (alookup id (g_members g))) as Hlk.
+  { intros id. unfold ms'. rewrite map_map. induction (g_members g) as [|[k m] ms IH]; cbn; [reflexivity|].
+    destruct (id =? k) eqn:E; [|exact IH]. assert (id = k) by lia. subst. reflexivity. }
+  split; [|split; [|split; [reflexivity|split; [reflexivity|split; [reflexivity|split; [exact Hsubs|split; [exact Hasg|split]]]]]]].
+  - constructor; unfold R; cbn [g_gen g_members g_leader g_assign g_phase g_rebto keys]; unfold keys; cbn [g_members].
+    + now rewrite Hk.
+    + unfold ms'. destruct (g_members g); [congruence|discriminate].
+    + exists l. split; [exact Hl|]. now rewrite Hk.
+    + exact Hp.
+    + intros _. unfold all_joined. cbn [g_members g_gen]. unfold ms'. rewrite map_map.
+      apply forallb_forall. intros x Hx. apply in_map_iff in Hx as [e0 [<- _]]. cbn. lia.
+    + intros Hns. unfold asg. apply flat_assign_nil. intros e He.
+      apply in_map_iff in He as [e0 [<- _]]. cbn. unfold assignment_of. now rewrite (Hna Hns).
+    + intros Hst id Hin. rewrite Hk in Hin. fold R. rewrite (Hasg id Hin). rewrite Hsubs. now apply Ha.
+    + intros id m Hin. unfold ms' in Hin. rewrite map_map in Hin. apply in_map_iff in Hin as [e0 [He0 _]].
+      inversion He0; subst. cbn. unfold default_session. destruct (sess (m_session (snd e0)) >? 0) eqn:E1; lia.
+    + exact Hrebto.
+  - (* what is stored is reproduced by storing the restored group *)
+    rewrite <- Hpv. unfold pview at 1. unfold store_clone, build. fold keep.
+    cbn [g_phase g_leader g_gen g_rebto g_members R].
+    rewrite Hpv.
+    assert (forall e, In e (g_members g) ->
+              (fst (G (F e)), mkPM (m_topics (snd (G (F e))))
+                                   (if m_session (snd (G (F e))) >? 0 then m_session (snd (G (F e))) else 0)
+                                   (m_hb (snd (G (F e)))) (assignment_of R (fst (G (F e))))) =
+              (fst e, mkPM (m_topics (snd e)) (if keep then sess (m_session (snd e)) else m_session (snd (G (F e))))
+                           (m_hb (snd e)) (assignment_of g (fst e)))) as Hentry.
+    { intros [k m] Hin. cbn [fst snd G F m_topics m_hb m_session pm_topics pm_hb pm_session].
+      rewrite Hasg by (unfold keys, akeys; apply in_map_iff; exists (k, m); auto).
+      f_equal. f_equal.
+      destruct keep eqn:Ek.
+      - specialize (Hs k m Hin). rewrite (Hsess_keep _ Hs eq_refl). subst sess. cbn.
+        destruct (m_session m >? 0) eqn:E1; [reflexivity|lia].
+      - destruct (_ >? 0); reflexivity. }
+    destruct keep eqn:Ek.
+    + f_equal.
+      * subst rebto prebto. destruct (g_rebto g >? 0) eqn:E1; [|lia]. rewrite E1. now rewrite E1.
+      * unfold ms'. rewrite !map_map. apply map_ext_in. intros e He. rewrite (Hentry e He). reflexivity.
+    + f_equal. unfold ms'. rewrite !map_map. apply map_ext_in. intros e He.
+      pose proof (Hentry e He) as H. cbn [fst snd] in H |- *. inversion H as [[H1 H2 H3 H4 H5]].
+      subst sess. cbn. reflexivity.
+  - intros id. fold R. unfold R. cbn [g_members]. rewrite Hlk. destruct (alookup id (g_members g)); reflexivity.
+  - intros Hkeep id. fold R. unfold R. cbn [g_members]. rewrite Hlk.
+    destruct (alookup id (g_members g)) as [m|] eqn:El; [|reflexivity]. cbn.
+    f_equal. apply Hsess_keep; [|exact Hkeep]. apply (Hs id m). now apply alookup_In.
 Qed.
